@@ -168,7 +168,7 @@ func runC09(c *an.Ctx) {
 				}
 				w := an.FindPath(an.PathQuery{Fn: de, StartBlock: b.Succs[0], Stop: func(x ssa.Instruction) bool { return an.IsCallTo(x, rmv) },
 					Target: func(x ssa.Instruction) bool { return x.Block() == l.Header && x == l.Header.Instrs[0] }})
-				c.Check(w == nil, "R2", "doEvaluate: every matched value triggers the per-match hook", ifi.Pos(), "the match branch always reaches r.matchVariable before the next value", "a matched value can be passed over without running the rule's non-disruptive actions", )
+				c.Check(w == nil, "R2", "doEvaluate: every matched value triggers the per-match hook", ifi.Pos(), "the match branch always reaches r.matchVariable before the next value", "a matched value can be passed over without running the rule's non-disruptive actions")
 			}
 		}
 	}
